@@ -195,6 +195,9 @@ func (x *Exec) runUnit(recvList *ast.FieldList, ftype *ast.FuncType, body *ast.B
 	for _, o := range fr.paramObjs {
 		entryVars[o.Name()] = x.evalObject(fr.entry.clone(), o, nil)
 	}
+	if ct.Determ {
+		x.detCheck(body)
+	}
 	end := x.execBlock(st, body.List)
 	if end != nil {
 		x.finishReturn(end, body)
